@@ -217,6 +217,13 @@ class LossFn:
             # a loss reporting narrow NumPy integers (PFI-only worlds: the chain differences of SAGE are not meant for them)
             v = int(abs(float(y) - float(pred.get("output", 0))) * 997) % 30001
             return np.int16(v)
+        if fam in ("npuint8", "npbool"):
+            # a zero-one loss reported as an unsigned / boolean NumPy scalar (what `np_a != np_b` or a uint8 cast gives);
+            # everywhere-discontinuous in the prediction.  Only for oracles that need no reference values (C01, C15).
+            items = tuple(sorted((repr(k), canon(v)) for k, v in pred.items() if v != 0))
+            yk = y if isinstance(y, str) else canon(y)
+            bit = H(self.seed, "L01", yk, items) % 2
+            return np.uint8(bit) if fam == "npuint8" else np.bool_(bit)
         if fam == "bool01":
             # a zero-one loss that returns a Python bool (True = wrong)
             if self.multi:
